@@ -340,6 +340,149 @@ def float_case(nm, qs, params, n, rho):
     return diff if diff > 1e-9 * max(1.0, float(np.abs(rho).max())) else None
 
 
+# ------------------------------------------------------------------ execute_circuit: initial states
+INIT_LABELS = ["sv_default", "sv_initial_circuit", "dm_default", "dm_initial_circuit", "sv_bad_shape", "dm_bad_shape"]
+
+
+def init_term(meta):
+    n, gs, g0 = meta["n"], meta["gates"], meta["init_circuit"]
+    out = {}
+    for dm in (False, True):
+        c0 = c01.build_circuit(n, g0, dm)
+        c = c01.build_circuit(n, gs, dm)
+        conv = zmat if dm else c01.zvec
+        out[("none", dm)] = conv(c().state())
+        out[("circ", dm)] = conv(c(initial_state=c0).state())
+        bad = np.ones((2 ** n, 2 ** n + 1), dtype=complex) if dm else np.ones(2 ** n + 1, dtype=complex)
+        try:
+            c(initial_state=bad)
+            out[("bad", dm)] = False
+        except ValueError:
+            out[("bad", dm)] = True
+    G_, G0 = cgates(gs), cgates(g0)
+    badv = "[" + ";".join(["(1,0)"] * (2 ** n + 1)) + "]"
+    badm = "[" + ";".join([badv] * (2 ** n)) + "]"
+    return (
+        f"(let n := {n}%nat in let gs := {G_} in let g0 := {G0} in\n"
+        f"   [osv (execute_circuit Ziops n gs (InitNone (T:=Zi))) {c01.cvec(out[('none', False)])};\n"
+        f"    osv (execute_circuit Ziops n gs (InitCircuit g0)) {c01.cvec(out[('circ', False)])};\n"
+        f"    odm (execute_circuit_dm Ziops zi_conj n gs (DInitNone (T:=Zi))) {cmat(out[('none', True)])};\n"
+        f"    odm (execute_circuit_dm Ziops zi_conj n gs (DInitCircuit g0)) {cmat(out[('circ', True)])};\n"
+        f"    Bool.eqb (onone (execute_circuit Ziops n gs (InitArray {badv}))) {c01.cbool(out[('bad', False)])};\n"
+        f"    Bool.eqb (onone (execute_circuit_dm Ziops zi_conj n gs (DInitArray {badm}))) {c01.cbool(out[('bad', True)])}])")
+
+
+def init_check(run, rng):
+    """initial_state = None / a Circuit / an array of the wrong shape, both modes, against Model.execute_circuit(_dm)"""
+    from qibo import Circuit
+    terms, metas = [], []
+    for i in range(16 if run.tier != "thorough" else 80):
+        n = rng.choice([1, 2, 2, 3, 3, 4])
+        meta = {"n": n, "gates": random_circuit(rng, n, rng.randint(1, 4), 1, dm=True),
+                "init_circuit": random_circuit(rng, n, rng.randint(1, 2), 1, dm=True)}
+        terms.append(init_term(meta))
+        metas.append(meta)
+    labels = INIT_LABELS
+    res = eval_cases(run, "C02_init", terms, len(labels), chunk=40)
+    for meta, bs in zip(metas, res):
+        run.case(["init", meta], nontrivial=True)
+        key = "init:" + case_key("c", {"n": meta["n"], "gates": meta["gates"]})
+        if bs is None:
+            run.find("coq-eval:" + key, "Coq evaluation failed", {"case": meta}, concrete=False)
+            continue
+        badl = [l for l, b in zip(labels, bs) if not b]
+        if badl:
+            run.find(key, "execute_circuit with initial_state None / Circuit / wrong-shape array differs from the model "
+                     f"({', '.join(badl)})", {"case": meta, "mechanism": "init", "failed": badl})
+    run.notes["initial_state_cases"] = len(terms)
+
+
+# ------------------------------------------------------------------ fused circuits in density-matrix mode
+def fused_dm_term(case):
+    from qibo import gates
+    n, gs, rho = case["n"], case["gates"], case["init"]
+    c = c01.build_circuit(n, gs, True)
+    fc = c.fuse(max_qubits=2)
+    view, nfused = [], 0
+    for fg in fc.queue:
+        if isinstance(fg, gates.FusedGate):
+            nfused += 1
+            view.append({"fused": [describe(x, {}) for x in fg.gates], "ts": [int(q) for q in fg.target_qubits]})
+        else:
+            view.append(describe(fg, {}))
+    st = zmat(fc(initial_state=np_matrix(rho).copy()).state())
+    queue = "([" + ";\n     ".join(
+        (f"QFused {cnats(v['ts'])} {cgates(v['fused'])}" if "fused" in v else f"QGate ({cgate(v)})") for v in view
+    ) + "] : list (qitem (T:=Zi)))"
+    return (f"(let n := {n}%nat in let q := {queue} in let its := {cintents(gs)} in\n"
+            f"   let rho := {cmat(rho)} in let ex := {cmat(st)} in\n"
+            f"   [meqb (execute_dm_queue Ziops zi_conj n q rho) ex; meqb (sandwich Ziops zi_conj n (circ_mat Ziops n its) rho) ex])"), nfused
+
+
+def fused_dm_check(run, rng):
+    terms, metas = [], []
+    for i in range(10 if run.tier != "thorough" else 50):
+        n = rng.choice([2, 2, 3, 3, 4])
+        gs = [g for g in random_circuit(rng, n, rng.randint(3, 6), 1, dm=True, max_arity=2)
+              if len(g["intent"][0]) + len(g["intent"][1]) <= 2]
+        if not gs:
+            continue
+        kind = rng.choice(["hermitian", "general"])
+        rho = rand_rho(rng, n, kind)
+        case = {"n": n, "gates": gs, "init": rho, "rho_kind": kind}
+        term, nfused = fused_dm_term(case)
+        terms.append(term)
+        metas.append(({"n": n, "gates": gs, "init": rho, "rho_kind": kind}, nfused))
+    res = eval_cases(run, "C02_fused", terms, 2, chunk=25)
+    for (case, nfused), bs in zip(metas, res):
+        run.case(["fused-dm", case], nontrivial=nfused > 0)
+        key = case_key("fused-dm", case)
+        if bs is None:
+            run.find("coq-eval:" + key, "Coq evaluation failed", {"case": case}, concrete=False)
+        elif not bs[1]:
+            run.find(key, "density-matrix execution of the fused circuit is not U rho U^dagger of the original circuit",
+                     {"case": case, "mechanism": "fused-dm"})
+        elif not bs[0]:
+            run.find("model:" + key, "model of fused density-matrix execution disagrees with the implementation",
+                     {"case": case}, concrete=False)
+    run.notes["fused_dm_circuits"] = len(terms)
+
+
+# ------------------------------------------------------------------ Gram forms on the real code
+def gram_one(case):
+    n, gs = case["n"], case["gates"]
+    cplx = lambda p: complex(p[0], p[1])
+    terms = [(cplx(a), np.array([cplx(x) for x in v]), np.array([cplx(x) for x in w])) for a, v, w in case["terms"]]
+    rho = sum(a * np.outer(v, w.conj()) for a, v, w in terms)
+    cd, cs = c01.build_circuit(n, gs, True), c01.build_circuit(n, gs, False)
+    got = zmat(cd(initial_state=rho.copy()).state())
+    exp = zmat(sum(a * np.outer(np.asarray(cs(initial_state=v.copy()).state()),
+                                np.asarray(cs(initial_state=w.copy()).state()).conj()) for a, v, w in terms))
+    return got == exp
+
+
+def gram_check(run, rng):
+    """PropsDM.dm_run_preserves_gram_form replayed on the implementation, exactly (integers): the density-matrix run of
+    sum_i a_i |v_i><w_i| equals sum_i a_i |SV-run v_i><SV-run w_i|"""
+    from qibo import Circuit
+    ncase = 0
+    for i in range(12 if run.tier != "thorough" else 60):
+        n = rng.choice([1, 2, 2, 3, 3, 4])
+        gs = random_circuit(rng, n, rng.randint(1, 4), 1, dm=True)
+        terms = [(complex(*rand_zi(rng, 2, 0.0)), np.array([complex(*p) for p in c01.rand_state(rng, n)]),
+                  np.array([complex(*p) for p in c01.rand_state(rng, n)])) for _ in range(rng.randint(1, 3))]
+        if rng.random() < 0.5:
+            terms = [(a, v, v) for a, v, _ in terms]
+        tj = [[c01.zpair(a), c01.zvec(v), c01.zvec(w)] for a, v, w in terms]
+        ncase += 1
+        case = {"n": n, "gates": gs, "terms": tj}
+        run.case(["gram", case], nontrivial=True)
+        if not gram_one(case):
+            run.find(case_key("gram", case), "density-matrix run of a Gram form is not the Gram form of the state-vector runs",
+                     {"case": case, "mechanism": "gram"})
+    run.notes["gram_cases"] = ncase
+
+
 def shrink_dm(run):
     def f(case):
         singles = []
@@ -385,9 +528,13 @@ def main(run):
     half_check(run, rng)
     param_check(run, rng)
     float_check(run, rng)
+    init_check(run, rng)
+    fused_dm_check(run, rng)
+    gram_check(run, rng)
     c01.malformed_check(run, rng, dm=True)
     return run.finish(level="proof", rule=(
-        "parametrized classes (every class of gates.py, enumerated from the source): all-zero sweep and random multiples of pi/2 "
+        "initial_state None / Circuit / wrong shape in both modes; fused circuits (Circuit.fuse) in density-matrix mode; Gram forms "
+        "sum a_i |v_i><w_i| against the state-vector runs; parametrized classes (every class of gates.py, enumerated from the source): all-zero sweep and random multiples of pi/2 "
         "through circuit(initial_state=rho), exact on the lattice (1/s)Z[i]; random angles at test level against Circuit.unitary(); "
         "as C01 with density_matrix=True: random circuits n in 1..5 depth 1..6 plus depth-1 sweep of all (ordered targets, control "
         "subset) placements (quick: all n<=3 arity<=2 + samples up to n=5 arity 3; thorough: all n<=4 arity<=3 + n=5 sample), rho alternately "
@@ -407,6 +554,21 @@ def replay(run, data):
                 run.find(data["key"], data.get("what", ""), {"case": case, "mechanism": "param"})
         except Exception as e:
             run.find(data["key"], f"raised {type(e).__name__}: {e}", {"case": case, "mechanism": "param"})
+        return run.finish(rule="replay of one recorded case")
+    if rp.get("mechanism") in ("init", "fused-dm", "gram"):
+        try:
+            if rp["mechanism"] == "gram":
+                bad = not gram_one(case)
+            elif rp["mechanism"] == "init":
+                bs = eval_cases(run, "C02_replay", [init_term(case)], len(INIT_LABELS))[0]
+                bad = bs is None or not all(bs)
+            else:
+                bs = eval_cases(run, "C02_replay", [fused_dm_term(case)[0]], 2)[0]
+                bad = bs is None or not bs[1]
+            if bad:
+                run.find(data["key"], data.get("what", ""), rp)
+        except Exception as e:
+            run.find(data["key"], f"raised {type(e).__name__}: {e}", rp)
         return run.finish(rule="replay of one recorded case")
     if rp.get("mechanism") == "float":
         rho = np.array([[complex(a, b) for a, b in row] for row in rp["rho"]])
